@@ -96,6 +96,7 @@ inductive Ev
   | c (inst tag : Nat)                               -- compose block reached a log statement
   | m (inst idx tag : Nat)                           -- monitor reached a log statement
   | b (agent tag : Nat)                              -- behavior reached a log statement
+  | bstep (agent : Nat)                              -- `agent.behavior._step()` entered
   | cond (ctx : Ctx) (id : Nat) (val : Bool)         -- a user condition was evaluated
   | create (agent : Nat)                             -- object created in the simulator
   | stop (inst : Nat)                                -- `DynamicScenario._stop` entered
@@ -108,6 +109,10 @@ inductive Ev
   | sim (t : Nat)                                    -- `step`
   | upd (t : Nat)                                    -- `updateObjects` (t = clock after increment)
   deriving Repr, DecidableEq, Inhabited
+
+def Ev.isTraj : Ev → Bool | .traj _ => true | _ => false
+def Ev.isAct : Ev → Bool | .act _ _ => true | _ => false
+def Ev.isSim : Ev → Bool | .sim _ => true | _ => false
 
 /-- what a `send(None)` produced -/
 inductive Y
